@@ -208,6 +208,9 @@ func mutateFasta(r *Rand, text string, kind string) string {
 				c := r.Pick("J", "Z", "!", "1", "*", ".", " ")
 				if kind == "control_byte" {
 					c = r.Pick("\x00", "\x01", "\t", "\x7f", "\xff", "\xc3\xa9")
+					if r.Bool() {
+						c = badSymbol(r, j, len(lines[i]))
+					}
 				}
 				lines[i] = lines[i][:j] + c + lines[i][j+1:]
 			}
@@ -440,6 +443,14 @@ func checkC16(t *Trial, ctx *Ctx) *Failure {
 					}
 					encVerdict[i] = sb.String()
 				}
+				// strictness: a stream that certainly breaks one of the stated rules must be refused by the three
+				// encoding readers (the plain-text reader keeps the bytes as they are and is exempt)
+				if i >= 1 && res.Err == nil {
+					if why := mustReject(stream); why != "" {
+						t.Runs = t.Runs[:i+1]
+						return &Failure{Class: "C16/invalid-stream-accepted{" + rd + "}", Detail: fmt.Sprintf("byte stream %q (%s): %s, but %s returned no error; records:\n%s", stream, t.Kind, why, rd, res.Stdout)}
+					}
+				}
 				// readers 1,2,3 (streaming, scoring, list) apply the same checks to the same bytes: they must agree
 				if i == 3 && (encVerdict[1] != encVerdict[2] || encVerdict[1] != encVerdict[3]) {
 					short := func(v string) string {
@@ -458,4 +469,40 @@ func checkC16(t *Trial, ctx *Ctx) *Failure {
 		}
 	}
 	return nil
+}
+
+// mustReject is the part of "strict" that can be decided from the bytes alone, stated independently of the
+// readers: the stream starts with a header line, and either a sequence line holds a byte that is not an
+// IUPAC nucleotide code, '-' or '?' (a CR directly before the LF belongs to the line end), or there are at
+// least two records, none of them empty, of different lengths. It returns the reason, or "" when the
+// stream is valid or its status is not settled by these two rules.
+func mustReject(stream string) string {
+	if !strings.HasPrefix(stream, ">") {
+		return ""
+	}
+	var lens []int
+	for _, l := range strings.Split(stream, "\n") {
+		l = strings.TrimSuffix(l, "\r")
+		if strings.HasPrefix(l, ">") {
+			lens = append(lens, 0)
+			continue
+		}
+		for k := 0; k < len(l); k++ {
+			if strings.IndexByte("ACGTRYSWKMBDHVNacgtryswkmbdhvn-?", l[k]) < 0 {
+				return fmt.Sprintf("byte %#02x in a sequence line is not a nucleotide symbol", l[k])
+			}
+		}
+		lens[len(lens)-1] += len(l)
+	}
+	for _, n := range lens {
+		if n == 0 {
+			return ""
+		}
+	}
+	for _, n := range lens[1:] {
+		if n != lens[0] {
+			return "records of different lengths"
+		}
+	}
+	return ""
 }
